@@ -192,6 +192,7 @@ def run(ctx: Ctx):
     pctsp_all_visited_count(ctx)
     svrp_every_route_checked(ctx)
     single_tour(ctx)
+    sdvrp_delivery_law(ctx)
     per_row_asserts(ctx)
     explained_asserts(ctx)
     gate(ctx)
@@ -672,6 +673,65 @@ def svrp_every_route_checked(ctx: Ctx):
         if not ok2:
             why2 += " -- `_step` / `_get_reward` change technician at every depot visit (empty routes included); the checker would judge later routes against the wrong technician"
     ctx.ob("C06.o", "SVRPEnv.checker:technician-per-route", ok2, fi.loc, why2, construct="SVRPEnv.check_solution_validity:technician-counter")
+
+
+def sdvrp_delivery_law(ctx: Ctx):
+    """C06.q the SDVRP checker replays the tour: at every stop the vehicle delivers d = min(demand left at the node, capacity -
+    load), the node's demand shrinks by d, the load grows by d and is emptied at the depot; at the end no demand is left.  The
+    three update formulas are compared in polynomial normal form (the loop-carried values are the atoms)."""
+    env = EnvA(ctx.repo, T.CHECK_ENVS["SDVRPEnv"][0], "SDVRPEnv")
+    sl = env.slot("check_solution_validity")
+    lvs = {}
+    for n in _all_nodes(sl):
+        if n.op == "loopvar" and n.id in vg.LOOP_BODY:
+            lvs.setdefault(n.id, n)
+    dem = [n for n in lvs.values() if len(n.args) > 1 and isinstance(n.args[1], vg.S) and "demand" in vg.cells_of(n.args[1]) and nf._fn(nf.strip(n.args[1])) in ("torch.cat", "torch.concat")]
+    use = [n for n in lvs.values() if len(n.args) > 1 and isinstance(n.args[1], vg.S) and nf._fn(nf.strip(n.args[1])) in ("torch.zeros_like", "torch.zeros")]
+    if len(dem) != 1 or len(use) != 1:
+        raise AnalysisError(f"SDVRPEnv.check_solution_validity: loop-carried demand / load not identified ({len(dem)}, {len(use)})")
+    dem, use = dem[0], use[0]
+    bd, bu = nf.strip(vg.LOOP_BODY[dem.id]), nf.strip(vg.LOOP_BODY[use.id])
+    mins = [n for n in vg.walk(bd) if nf._fn(n) in ("torch.min", "torch.minimum") and len([a for a in n.args[1:] if isinstance(a, vg.S) and a.op != "kw"]) == 2]
+    ok_d = ok_dem = ok_use = False
+    why = "delivered amount min(demand left, capacity - load) not found"
+    if len({m.id for m in mins}) == 1:
+        D = mins[0]
+        a1, a2 = [a for a in D.args[1:] if isinstance(a, vg.S) and a.op != "kw"]
+        def left_at_node(x):
+            x = nf.strip(x)
+            return x.op == "sub" and nf.strip(x.args[0]) is dem
+        def room(x):
+            try:
+                p = nf.poly(x)
+            except Exception:
+                return False
+            t = {}
+            for m, c in p.terms.items():
+                if len(m) != 1 or m[0][1] != 1:
+                    return False
+                t[nf.Poly.ATOMS[m[0][0]]] = c
+            caps = [a for a in t if "vehicle_capacity" in vg.cells_of(a) and not any(y is use for y in vg.walk(a))]
+            loads = [a for a in t if nf.strip(a) is use]
+            return len(t) == 2 and len(caps) == 1 and len(loads) == 1 and t[caps[0]] == 1 and t[loads[0]] == -1
+        ok_d = (left_at_node(a1) and room(a2)) or (left_at_node(a2) and room(a1))
+        # demand' = demand - d at the node
+        if bd.op == "store" and nf.strip(bd.args[0]) is dem:
+            at_node = vg.mk("sub", dem, bd.args[1])
+            ok_dem = nf.poly(bd.args[2]) == nf.poly(at_node) - nf.poly(D)
+        # load' = (load + d), emptied at the depot
+        if bu.op == "store" and vg.is_const(bu.args[2], 0):
+            cz = nf.cmpnf(bu.args[1])
+            at_depot = cz is not None and cz[1] == "==0" and cz[0].const_term() == 0
+            ok_use = nf.poly(bu.args[0]) == nf.poly(use) + nf.poly(D) and at_depot
+        why = f"d = min(demand left at the node, capacity - load): {ok_d}; demand' = demand - d: {ok_dem}; load' = load + d, 0 at the depot: {ok_use}"
+    # the depot column of the replayed demands is -capacity (a stop at the depot `delivers` -capacity and is then emptied)
+    init = nf.strip(dem.args[1])
+    items = nf._seq_items(init.args[1]) or []
+    ok_init = len(items) == 2 and nf.poly(items[0]).terms and all(c == -1 for c in nf.poly(items[0]).terms.values()) and "vehicle_capacity" in vg.cells_of(items[0]) \
+        and nf.strip(items[1]).op == "cell0" and nf.strip(items[1]).args[1] == "demand"
+    ok = ok_d and ok_dem and ok_use and bool(ok_init)
+    ctx.ob("C06.q", "SDVRPEnv.checker:delivery-law", ok, sl.where, why + f"; replay starts from cat((-capacity, demand)): {bool(ok_init)}",
+           construct="SDVRPEnv.check_solution_validity:delivery-law")
 
 
 def single_tour(ctx: Ctx):
